@@ -32,9 +32,9 @@ def run_harness(hexe, seed, n, scenario, out):
     args = [hexe, "-seed=%d" % seed, "-n=%d" % n, "-out=" + out]
     if RECOMPUTE_BIN[0]:
         args.append("-recompute-bin=" + RECOMPUTE_BIN[0])
-    if scenario and scenario.startswith("crashenum:"):
-        args += ["-scenario=crashenum", "-enumbase=" + scenario.split(":")[1]]
-        args[2] = "-n=30"
+    if scenario and (scenario.startswith("crashenum:") or scenario.startswith("recoverfault:")):
+        args += ["-scenario=" + scenario.split(":")[0], "-enumbase=" + scenario.split(":")[1]]
+        args[2] = "-n=30" if scenario.startswith("crashenum:") else "-n=32"
     elif scenario:
         if scenario.split("@")[0] in HEAVY:
             args[2] = "-n=%d" % HEAVY[scenario.split("@")[0]]   # histories with 200+ entries each
@@ -99,6 +99,11 @@ def main(prop, prop_v, tier, seed, replay, scenarios, own_prefixes, known_prefix
                 # every crash position of a round x every crash position of the recovery, small tree (120 histories)
                 for base in range(0, 120, 30):
                     jobs.append((seed * 1000 + 500 + base, "crashenum:%d" % base))
+            if prop in ("C01", "C03"):
+                # every crash position of a round x a failing operation at every position of the recovery (96 histories;
+                # thorough: also with the failure applied)
+                for base in range(0, 96 if tier == "quick" else 192, 32):
+                    jobs.append((seed * 1000 + 700 + base, "recoverfault:%d" % base))
             if tier == "thorough" and prop in ("C01", "C02", "C03", "C04"):
                 # systematic crash placement: every crash position of a round x every crash position
                 # of the recovery, for a small tree and one crossing the first tile boundary
